@@ -247,7 +247,7 @@ class Patcher:
     def sweep(self, off, cls):
         d = bytearray(self.data)
         old = d[off]
-        v = {"zero": 0, "max32": 0xFF, "plus-one": (old + 1) & 0xFF, "minus-one": (old - 1) & 0xFF, "huge-length": old | 0x80}[cls]
+        v = {"zero": 0, "max32": 0xFF, "plus-one": (old + 1) & 0xFF, "minus-one": (old - 1) & 0xFF, "huge-length": old | 0x80, "doubled": 0x80}[cls]
         if v == old:
             return None
         d[off] = v
